@@ -127,8 +127,10 @@ class C17(Engine):
     rule = ("run i = real naken_asm writes a seeded image in one of 8 formats (ti-txt rendered by the harness) -> simulated disk "
             "damage (cut / bit flip / byte / zeroed or duplicated 512-byte sector / header field set to an extreme / dropped, "
             "duplicated, over-long or junk text record) -> one forked naken_util lifetime with a seeded command line (68 CPU "
-            "switches or none, -bin/-address/-set_pc/-break_io/-sim_serial, -disasm / -disasm_range / -run / interactive) and "
-            "0-15 console commands (valid, boundary and malformed arguments), SIGINT planned during run commands, ending with quit. "
+            "switches or none, -bin/-address/-set_pc/-break_io/-sim_serial, -disasm / -disasm_range / -run / interactive, now and then an option cut short at the end of the command line) and "
+            "0-15 console commands (valid, boundary and malformed arguments), SIGINT planned during run commands, ending with quit or end of input; "
+            "the first run indices also push seeded byte soup and an opcode-table sweep (every first byte x operand width, byte order, "
+            "alignment, wrong-way-round and negative bounds, one disasm command per record) through each of the 68 disassemblers. "
             "Distinct = distinct seam-event hash; non-trivial = a fault fired (read fault, SIGINT) or the stored file was damaged.")
     assumptions = ["every session ends with quit or with end of input (Ctrl-D)",
                    "display is never toggled off before run on riscv/mips/ebpf (their run loops have no seam call to schedule a SIGINT at)",
